@@ -443,13 +443,22 @@ fn wire_chunks(rng: &mut Rng, l: Limits, max_len: usize) -> Vec<u8> {
             // over-long (only a fault if it still fits the header)
             3 if rng.chance(1, 3) => limit + 1,
             4 => 1,
+            // sizes 253*q + r, r <= 2: they have an alias spelling with an out-of-radix low digit
+            5 if !first && limit >= 253 => (253 * rng.range(1, (limit / 253).min(3) as u64) as usize + rng.below(3) as usize).min(limit),
             _ => rng.range(0, limit as u64) as usize,
         };
         if out.len() + n + 2 > max_len {
             break;
         }
         let n = if first { n.min(255) } else { n.min(253 * 253 - 1) };
-        out.extend_from_slice(&header_bytes(l, first, n));
+        if !first && n >= 253 && n % 253 <= 2 && rng.chance(1, 2) {
+            // ill-formed, but self-consistent if a decoder forgot the digit check:
+            // low digit 253..255, high digit one less
+            out.push((n % 253 + 253) as u8);
+            out.push((n / 253 - 1) as u8);
+        } else {
+            out.extend_from_slice(&header_bytes(l, first, n));
+        }
         let d = small_density(rng);
         let mut body = payload_iid(rng, n, d);
         if last && rng.chance(1, 6) && !body.is_empty() {
@@ -525,7 +534,7 @@ fn dec_wire(rng: &mut Rng, l: Limits, thorough: bool) -> Vec<u8> {
             mutate_wire(rng, l, &mut wire, &headers);
             wire
         }
-        9..=15 => wire_chunks(rng, l, if l.prod { 70000 } else { 1500 }),
+        9..=15 => wire_chunks(rng, l, if l.prod { 140000 } else { 1500 }),
         _ => {
             let n = rng.range(0, 12) as usize;
             (0..n)
